@@ -9,6 +9,9 @@ import (
 	"bytes"
 	"context"
 	"fmt"
+	"os"
+	"runtime"
+	"runtime/pprof"
 	"strings"
 	"sync"
 	"sync/atomic"
@@ -20,6 +23,7 @@ import (
 	"github.com/tikv/client-go/v2/internal/locate"
 	"github.com/tikv/client-go/v2/internal/mockstore/mocktikv"
 	"github.com/tikv/client-go/v2/rawkv"
+	"github.com/tikv/client-go/v2/tikv"
 	"github.com/tikv/client-go/v2/tikvrpc"
 	pd "github.com/tikv/pd/client"
 	"github.com/tikv/pd/client/pkg/caller"
@@ -60,6 +64,7 @@ func (p *ksPD) WithCallerComponent(c caller.Component) pd.Client {
 }
 
 type store struct {
+	mvcc  mocktikv.MVCCStore
 	rpc   *mocktikv.RPCClient
 	pdc   pd.Client
 	close []func()
@@ -69,7 +74,7 @@ func newStore() *store {
 	mvcc := mocktikv.MustNewMVCCStore()
 	cluster := mocktikv.NewCluster(mvcc)
 	mocktikv.BootstrapWithSingleStore(cluster)
-	s := &store{rpc: mocktikv.NewRPCClient(cluster, mvcc, nil), pdc: mocktikv.NewPDClient(cluster)}
+	s := &store{mvcc: mvcc, rpc: mocktikv.NewRPCClient(cluster, mvcc, nil), pdc: mocktikv.NewPDClient(cluster)}
 	return s
 }
 
@@ -82,6 +87,84 @@ func (s *store) Close() {
 	}
 	s.rpc.Close()
 	s.pdc.Close()
+}
+
+// wipe empties the physical store (raw and MVCC data live in the same leveldb)
+// and confirms it, so that a reused world starts every sequence from the same
+// empty state a fresh store would have.
+func (s *store) wipe() bool {
+	rk, ok := s.mvcc.(mocktikv.RawKV)
+	if !ok {
+		return false
+	}
+	rk.RawDeleteRange("", nil, nil)
+	return len(rk.RawScan("", nil, nil, 1)) == 0
+}
+
+// world = one mock store plus the clients bound to it. Worlds are reused across
+// sequences (after wipe) because every mocktikv instance pins a 4 MiB leveldb
+// memtable for ~30s after Close; creating one per sequence exhausts memory at
+// thorough depth. Client-side caches (region cache) stay warm, data does not.
+type world struct {
+	st  *store
+	raw []*rawkv.Client
+	txn []*tikv.KVStore
+}
+
+var (
+	worldMu    sync.Mutex
+	worldPools = map[string][]*world{}
+)
+
+func getWorld(key string, mk func(w *world) error) (*world, error) {
+	worldMu.Lock()
+	if l := worldPools[key]; len(l) > 0 {
+		w := l[len(l)-1]
+		worldPools[key] = l[:len(l)-1]
+		worldMu.Unlock()
+		return w, nil
+	}
+	worldMu.Unlock()
+	w := &world{st: newStore()}
+	if err := mk(w); err != nil {
+		return nil, err
+	}
+	return w, nil
+}
+
+func putWorld(key string, w *world) {
+	if diffAbort.Load() {
+		return // abandoned operations may still run on it
+	}
+	if !w.st.wipe() {
+		run.Incomplete("differential: could not wipe a mock store for reuse")
+		w.close()
+		return
+	}
+	worldMu.Lock()
+	worldPools[key] = append(worldPools[key], w)
+	worldMu.Unlock()
+}
+
+func (w *world) close() {
+	if diffAbort.Load() {
+		return
+	}
+	for _, t := range w.txn {
+		t.Close()
+	}
+	w.st.Close()
+}
+
+func closeWorlds() {
+	worldMu.Lock()
+	defer worldMu.Unlock()
+	for k, l := range worldPools {
+		for _, w := range l {
+			w.close()
+		}
+		delete(worldPools, k)
+	}
 }
 
 // rawClient builds a rawkv client; ks < 0 means API v1.
@@ -325,12 +408,16 @@ func encodeSeq(s []int, n int) int {
 
 // runIsolated: API v1 client alone on a fresh store.
 func runIsolated(alpha []rop, seq []int) []string {
-	s := newStore()
-	defer s.Close()
-	c, err := s.rawClient(-1)
+	w, err := getWorld("raw-iso", func(w *world) error {
+		c, err := w.st.rawClient(-1)
+		w.raw = []*rawkv.Client{c}
+		return err
+	})
 	if err != nil {
 		return []string{"ERR:" + err.Error()}
 	}
+	defer putWorld("raw-iso", w)
+	c := w.raw[0]
 	var out []string
 	for i, oi := range seq {
 		out = append(out, normalise(apply(c, alpha[oi], "#", i, false), "#"))
@@ -364,7 +451,9 @@ func runDifferential(depth int) map[string]any {
 			distinctFinal.Store(refs[i][d], true)
 		})
 		for _, pair := range pairs {
-			if d < depth && pair != pairs[0] {
+			// further keyspace pairs (ids at the top of the id space) only at depth 3:
+			// they vary the prefix arithmetic, not the interleavings
+			if pair != pairs[0] && d != 3 {
 				continue
 			}
 			pair := pair
@@ -404,6 +493,15 @@ func runDifferential(depth int) map[string]any {
 		return c
 	}
 	nTransitions.Add(opsRun.Load())
+	var ms runtime.MemStats
+	runtime.ReadMemStats(&ms)
+	if pf := os.Getenv("VERIF_C15_HEAPPROF"); pf != "" {
+		if f, err := os.Create(pf); err == nil {
+			pprof.WriteHeapProfile(f)
+			f.Close()
+		}
+	}
+	run.Note("after raw differential: goroutines=%d heap_inuse_mb=%d sys_mb=%d", runtime.NumGoroutine(), ms.HeapInuse>>20, ms.Sys>>20)
 	return map[string]any{"alphabet": n, "depth": depth, "keyspace_pairs": pairs, "sequences": seqs.Load(), "api_calls": opsRun.Load(),
 		"distinct_final_states": cnt(&distinctFinal), "distinct_results": cnt(&distinctRes), "physical_keys_checked": storeKeysChecked.Load(),
 		"wall_s": int(time.Since(start).Seconds()), "mode": "raw (mocktikv, single region)"}
@@ -443,15 +541,23 @@ func opKind(o rop) string {
 
 func runShared(alpha []rop, pair [2]uint32, seqA, seqB, seqV []int, refA, refB, refV []string, replay diffSeq,
 	opsRun, keysChecked *atomic.Int64, distinctRes *sync.Map) {
-	s := newStore()
-	defer s.Close()
-	ca, err1 := s.rawClient(int64(pair[0]))
-	cb, err2 := s.rawClient(int64(pair[1]))
-	cv, err3 := s.rawClient(-1)
-	if err1 != nil || err2 != nil || err3 != nil {
-		viol("diff:setup", fmt.Sprintf("cannot build clients: %v %v %v", err1, err2, err3), replay)
+	wkey := fmt.Sprintf("raw-%d-%d", pair[0], pair[1])
+	w, err := getWorld(wkey, func(w *world) error {
+		for _, ks := range []int64{int64(pair[0]), int64(pair[1]), -1} {
+			c, err := w.st.rawClient(ks)
+			if err != nil {
+				return err
+			}
+			w.raw = append(w.raw, c)
+		}
+		return nil
+	})
+	if err != nil {
+		viol("diff:setup", fmt.Sprintf("cannot build clients: %v", err), replay)
 		return
 	}
+	defer putWorld(wkey, w)
+	ca, cb, cv := w.raw[0], w.raw[1], w.raw[2]
 	d := len(seqA)
 	check := func(who, tag string, got string, want string, o rop) {
 		nEvals.Add(1)
